@@ -31,8 +31,8 @@ def is_uniform(c):
     return len(c) >= 2 and len(set(c[i + 1] - c[i] for i in range(len(c) - 1))) == 1
 
 
-def gen_layout(rng, nmin=5, nmax=24, max_ens=2, max_rep=3, ens_names=None):
-    """dict replica-name -> cfg list."""
+def gen_layout(rng, nmin=5, nmax=24, max_ens=2, max_rep=3, ens_names=None, mixed=False):
+    """dict replica-name -> cfg list.  mixed: an ensemble may carry a bare replica name next to 'ens|r..' names."""
     nens = rng.choice([1, 1, 1, 2, 2, 3][:1 + 2 * max_ens - 1]) if max_ens > 1 else 1
     nens = min(nens, max_ens)
     lay = {}
@@ -44,6 +44,8 @@ def gen_layout(rng, nmin=5, nmax=24, max_ens=2, max_rep=3, ens_names=None):
             names = [e]
         else:
             names = ["%s|r%d" % (e, i + 1) for i in range(nrep)]
+            if mixed and nrep > 1 and rng.random() < 0.35:
+                names[0] = e
         kind = rng.choice(IDL_KINDS)
         for nm in names:
             k = kind if rng.random() < 0.7 else rng.choice(IDL_KINDS)
@@ -58,11 +60,10 @@ def derive_layout(rng, base, mode):
     if mode == "same":
         return {k: list(v) for k, v in base.items()}
     if mode == "missing_rep":
-        multi = [n for n in names if "|" in n]
-        ens = sorted(set(n.split("|")[0] for n in multi))
+        ens = sorted(set(n.split("|")[0] for n in names))
         drop = set()
         for e in ens:
-            reps = [n for n in multi if n.split("|")[0] == e]
+            reps = [n for n in names if n.split("|")[0] == e]
             if len(reps) > 1 and rng.random() < 0.8:
                 drop.update(rng.sample(reps, rng.randint(1, len(reps) - 1)))
         for n in names:
